@@ -190,11 +190,14 @@ class MinErrorFlow():
         self.edge_error_vars = {}
         self.edge_sol = {}
 
+        # (the largest weight of an element that is not ignored: the weight of an ignored element - which may be missing, NaN or
+        # arbitrarily large - has no influence on the model)
         self.w_max = max(
             [
                 self.G[u][v].get(self.flow_attr, 0)
-                for (u, v) in self.G.edges() 
-            ]
+                for (u, v) in self.G.edges()
+                if (u, v) not in self.edges_to_ignore
+            ] + [0]
         )
         # (in Python arithmetic: the product of a fixed-width numpy scalar wraps around, np.uint8(60) * 5 = 44;
         # rounded up for integer weights: the integer above a value such as 0.6 must be admissible)
